@@ -549,9 +549,11 @@ MEDDLY::ct_tmpl<TTYPE, MONOLITHIC, CHAINED, INTSLOTS>::ct_tmpl(
     // verification hook: small initial hash table (same expand thresholds,
     // scaled) so that bounded model checking sees a small array
     table.resize(MEDDLY_VERIF_CT_SIZE, 0);
-    tableExpand = CHAINED ? 4*MEDDLY_VERIF_CT_SIZE : MEDDLY_VERIF_CT_SIZE/2;
-#else
+    if (MEDDLY_VERIF_CT_SIZE < 0)   // (never: skips the default size below)
+#endif
     table.resize(1024, 0);
+#if defined(MEDDLY_VERIF) && defined(MEDDLY_VERIF_CT_SIZE)
+    tableExpand = CHAINED ? 4*MEDDLY_VERIF_CT_SIZE : MEDDLY_VERIF_CT_SIZE/2;
 #endif
 
     mstats.incMemUsed(table.size() * sizeof(TTYPE));
